@@ -586,3 +586,33 @@ def replay_atom_order(viol, prop="C13"):
         cases.append(("atom_chars(X, \"%s\"), atom_concat('', '%s', Y), compare(O, X, Y), write(O), nl" % (x, y),
                       order(x, y)))
     return run_cases("", cases, {"model": viol}, prop, "atom_order", batch=True)
+
+
+# ---------------------------------------------------------------- C21 (atom identity across creation paths)
+def replay_atom_identity(viol):
+    """texts around the inline limit, with NUL, multi-byte, equal to predefined atoms: created as
+    literal, by atom_codes, atom_chars, atom_concat, sub_atom and char_code - identical iff equal text"""
+    texts = ["a", "ab", "abcdef", "abcdefg", "abcdefgh", "append", "é", "aé€", "€€", "[]", "a b"]
+    cases = []
+
+    def q(t):
+        return "'" + t.replace("\\", "\\\\").replace("'", "\\'") + "'"
+    for t in texts:
+        codes = "[" + ",".join(str(ord(c)) for c in t) + "]"
+        cases.append(("atom_codes(A, %s), ( A == %s -> show(same) ; show(different) )" % (codes, q(t)), "same"))
+        cases.append(("atom_codes(A, %s), atom_chars(%s, Cs), atom_chars(B, Cs), ( A == B -> show(same) ; "
+                      "show(different) )" % (codes, q(t)), "same"))
+        if len(t) > 1:
+            cases.append(("atom_concat(%s, %s, A), ( A == %s -> show(same) ; show(different) )" % (
+                q(t[:1]), q(t[1:]), q(t)), "same"))
+            cases.append(("sub_atom(%s, 0, %d, _, A), ( A == %s -> show(same) ; show(different) )" % (
+                q(t + "zz"), len(t), q(t)), "same"))
+        cases.append(("atom_length(%s, L), show(L)" % q(t), str(len(t))))
+    # NUL inside short texts: distinct texts are distinct atoms, and keep their length
+    for a, b, la in (("a\\x0\\b", "a", 3), ("a\\x0\\b", "a\\x0\\c", 3), ("\\x0\\a", "", 2), ("ab\\x0\\", "ab", 3),
+                     ("\\x0\\", "", 1)):
+        cases.append(("( '%s' == '%s' -> show(same) ; show(different) )" % (a, b), "different"))
+        cases.append(("atom_length('%s', L), show(L)" % a, str(la)))
+        cases.append(("atom_codes('%s', Cs), atom_codes(A, Cs), ( A == '%s' -> show(same) ; show(different) )" % (a, a),
+                      "same"))
+    return run_cases("show(X) :- write(X), nl.\n", cases, {"model": viol}, "C21", "atom_identity", batch=True)
